@@ -569,7 +569,7 @@ func Generate(r *rand.Rand, profile string, concurrent bool, av Avoid) *Plan {
 	// keys (two BIND replies with a repeated key field), then a second channel
 	// comes up and unkeyed calls are held: least-loaded placement must not depend
 	// on how many keys a channel holds, however many.
-	if (profile == "load" || profile == "affinity") && !concurrent && (p.Cfg.Locator == 2 || p.Cfg.Locator == 3) && !p.Cfg.RR && r.IntN(12) == 0 && len(p.Ops) > 4 {
+	if (profile == "load" && r.IntN(12) == 0 || profile == "affinity" && r.IntN(60) == 0) && !concurrent && (p.Cfg.Locator == 2 || p.Cfg.Locator == 3) && !p.Cfg.RR && len(p.Ops) > 4 {
 		if p.Cfg.Min < 2 {
 			p.Cfg.Min = 2
 		}
@@ -613,6 +613,37 @@ func Generate(r *rand.Rand, profile string, concurrent bool, av Avoid) *Plan {
 		for c := 0; c < 4; c++ {
 			frag = append(frag, Op{K: OpDone, A: r.IntN(8), B: OutOK}, Op{K: OpPick, B: MPlain})
 		}
+		at := 1 + r.IntN(2)
+		ops := append([]Op{}, p.Ops[:at]...)
+		ops = append(ops, frag...)
+		p.Ops = append(ops, p.Ops[at:]...)
+	}
+	// Directed fragment: a key's home fails twice with a recovery in between; the
+	// first stand-in keeps a call in flight, so the second outage picks another
+	// stand-in; then the FIRST stand-in fails. The key must stay on the second.
+	if profile == "fallback" && !concurrent && r.IntN(6) == 0 && len(p.Ops) > 4 {
+		if p.Cfg.Min < 4 {
+			p.Cfg.Min = 4
+		}
+		if p.Cfg.Max != 0 && p.Cfg.Max < p.Cfg.Min {
+			p.Cfg.Max = p.Cfg.Min
+		}
+		k := r.IntN(nKeys)
+		frag := []Op{}
+		for c := 0; c < 4; c++ {
+			frag = append(frag, Op{K: OpConn, A: c, B: ConnProgress}, Op{K: OpConn, A: c, B: ConnProgress})
+		}
+		frag = append(frag,
+			Op{K: OpPick, B: MBind, Keys: []int{k}}, Op{K: OpDone, A: -1, B: OutOK, Keys: []int{k}},
+			Op{K: OpConn, A: -4, B: ConnFail},
+			Op{K: OpPick, B: MBound, Keys: []int{k}},
+			Op{K: OpConn, A: -4, B: ConnProgress}, Op{K: OpConn, A: -4, B: ConnProgress},
+			Op{K: OpConn, A: -4, B: ConnFail},
+			Op{K: OpPick, B: MBound, Keys: []int{k}},
+			Op{K: OpConn, A: -3, B: ConnFail},
+			Op{K: OpPick, B: MBound, Keys: []int{k}},
+			Op{K: OpPick, B: MBound, Keys: []int{k}, C: r.IntN(2)},
+		)
 		at := 1 + r.IntN(2)
 		ops := append([]Op{}, p.Ops[:at]...)
 		ops = append(ops, frag...)
